@@ -91,7 +91,7 @@ def write_cfg(path, constants=None, init='Init', next_='Next', spec=None, invari
 _RE_STATS = re.compile(r'(\d+) states generated, (\d+) distinct states found, (\d+) states left on queue')
 _RE_DEPTH = re.compile(r'The depth of the complete state graph search is (\d+)')
 _RE_INV = re.compile(r'Error: Invariant (\S+) is violated')
-_RE_PROP = re.compile(r'Error: (?:Action|Temporal) propert(?:y|ies)(?: (\S+))? (?:is|were) violated')
+_RE_PROP = re.compile(r'Error: (?:Action|Temporal) propert(?:y|ies)(?: (\S+))? (?:is|was|were) violated')
 _RE_SIMSTATES = re.compile(r'The number of states generated: (\d+)')
 _RE_COV = re.compile(r'^<(\w+) line (\d+), col \d+ to line \d+, col \d+ of module (\w+)>: (\d+):(\d+)', re.M)
 
